@@ -743,13 +743,11 @@ func init() {
 			// progress marker: a detected race kills the process (halt_on_error); ./check reads the last marker
 			fmt.Fprintf(os.Stderr, "C18-OP !concurrent %s\n", joinArgs(a))
 		}
-		// 1. alone: the reference results, from one value built for that purpose. A second build tells which
-		//    results are functions of the input at all (a constructor may draw padding or read the clock).
-		want := c18Alone(a[0], w, aux)
-		if want == nil {
+		// (the reference results are computed AFTER the concurrent phase: state that is filled on first use — a lazily
+		//  written package-level table, a memo — must meet the goroutines untouched, not pre-filled by a solo pass)
+		if probe, _, _ := c18Build(a[0], w, aux); probe == nil {
 			return "err", nil
 		}
-		again := c18Alone(a[0], w, aux)
 		// 2. together: fresh copies of the value that NO call has touched yet (a lazily filled cache, a sort on
 		//    first use write only once), shared by 8 goroutines each. Copy 0 stays completely untouched before the
 		//    goroutines start; the later copies also expose the structures handed out by the accessors.
@@ -763,6 +761,11 @@ func init() {
 		}
 		var mu sync.Mutex
 		var diffs []diff
+		type pendingCopy struct {
+			methods []c18Method
+			seen    []map[string]bool
+		}
+		var pending []pendingCopy
 		total, nsubjects := 0, 0
 		for c := 0; c < copies; c++ {
 			val, _, _ := c18Build(a[0], w, aux)
@@ -771,11 +774,9 @@ func init() {
 			}
 			subjects := c18Subjects(reflect.ValueOf(val), c > 0, 6)
 			methods := c18Methods(subjects)
-			for i := range methods {
-				k := methods[i].key + "." + methods[i].name
-				methods[i].want = want[k]
-				_, have := want[k]
-				methods[i].compare = have && again != nil && again[k] == want[k]
+			seenRes := make([]map[string]bool, len(methods)) // distinct results per method, merged from the goroutines
+			for i := range seenRes {
+				seenRes[i] = map[string]bool{}
 			}
 			nsubjects += len(subjects)
 			n := len(methods)
@@ -793,7 +794,17 @@ func init() {
 			for g := 0; g < c18Goroutines; g++ {
 				wg.Add(1)
 				go func(g int) {
-					defer wg.Done()
+					local := make([]map[string]bool, n)
+					defer func() {
+						mu.Lock()
+						for i, m := range local {
+							for r := range m {
+								seenRes[i][r] = true
+							}
+						}
+						mu.Unlock()
+						wg.Done()
+					}()
 					<-start
 					for r := 0; r < per; r++ {
 						for k := 0; k < n; k++ {
@@ -807,12 +818,11 @@ func init() {
 								}
 							}
 							got := c18Call(methods[i].subject, methods[i].idx)
-							if methods[i].compare && got != methods[i].want {
-								mu.Lock()
-								if len(diffs) < 16 {
-									diffs = append(diffs, diff{methods[i], got})
-								}
-								mu.Unlock()
+							if local[i] == nil {
+								local[i] = map[string]bool{}
+							}
+							if len(local[i]) < 4 {
+								local[i][got] = true
 							}
 							if (k+g+r)%3 == 0 {
 								runtime.Gosched()
@@ -823,6 +833,34 @@ func init() {
 			}
 			close(start)
 			wg.Wait()
+			pending = append(pending, pendingCopy{methods, seenRes})
+		}
+		// the reference: every method called alone on a value built for that purpose; a second build tells which
+		// results are functions of the input at all (a constructor may draw padding or read the clock)
+		want := c18Alone(a[0], w, aux)
+		if want == nil {
+			return "err", nil
+		}
+		again := c18Alone(a[0], w, aux)
+		for _, pc := range pending {
+			for i := range pc.methods {
+				k := pc.methods[i].key + "." + pc.methods[i].name
+				wv, have := want[k]
+				if !have || again == nil || again[k] != wv {
+					continue
+				}
+				pc.methods[i].want = wv
+				var rs []string
+				for r := range pc.seen[i] {
+					rs = append(rs, r)
+				}
+				sort.Strings(rs)
+				for _, r := range rs {
+					if r != wv && len(diffs) < 16 {
+						diffs = append(diffs, diff{pc.methods[i], r})
+					}
+				}
+			}
 		}
 		var fails []Fail
 		seen := map[string]bool{}
